@@ -21,6 +21,10 @@ def same(a, b, tol=1e-9):
         return a == b
 
 
+class _Pred(dict):
+    """A user's own dict subclass for predictions."""
+
+
 def gen_pair(rnd, kind, dict_input, requires_labels, labelset):
     if kind == "reg":
         r = rnd.random()
@@ -153,9 +157,20 @@ def main(run):
                 run.count("pairs-outside-metric-domain")
                 continue
             del received[:]
+            ctype = rnd.random()
+            if ctype < 0.1:          # predictions handed over as dict subclasses (OrderedDict, defaultdict, a user's own class)
+                import collections
+                yp = collections.OrderedDict(yp)
+            elif ctype < 0.2:
+                import collections
+                dd = collections.defaultdict(float)
+                dd.update(yp)
+                yp = dd
+            elif ctype < 0.3:
+                yp = _Pred(yp)
             yp_copy = dict(yp)
             try:
-                got = w(yt, yp)
+                got = w(y_true=yt, y_prediction=yp) if 0.3 <= ctype < 0.36 else w(yt, yp)     # (documented parameter names, passed by keyword now and then)
             except Exception as ex:
                 run.violation(f"loss-raises", f"{name}: loss({yt!r}, {yp!r}) raised {type(ex).__name__}: {ex}", {"metric": name, "y_true": yt, "y_pred": yp})
                 ok = False
@@ -174,7 +189,7 @@ def main(run):
                 run.violation("metric-state-changed", f"{name} call {i}: metric.get() was {before!r}, now {after!r}", replay)
                 ok = False
             want = dict if dict_input else type(yp["output"])
-            if not received or any(t is not want for t in received):
+            if not received or any((not issubclass(t, dict)) if want is dict else (t is not want) for t in received):
                 run.violation("input-routing", f"{name}: metric received {received!r}, expected {want.__name__}", replay)
                 ok = False
             if yp != yp_copy:
